@@ -1,5 +1,6 @@
 (* C05 — @memoize never changes what is accepted or the tree that is returned. *)
 From PegV Require Import Utf8 State Terminals Syntax Fields Literals Model Inv Memo MemoEq Spec Sim Conform ConformX Extracted.
+From PegV Require Import MemoTot.
 
 Theorem C05_facts :
   Extracted.file_codegen_src_rule_rs = true /\ Extracted.file_codegen_src_grammar_mod_rs = true /\
@@ -115,3 +116,23 @@ Proof.
   - rewrite <- HB, E. apply C05_transparent; assumption.
 Qed.
 Print Assumptions C05_any_two_markings.
+
+(* Memoization never costs termination: whenever the parser of the unmarked grammar returns with a
+   recursion bound m, the parser of the marked grammar returns with every bound n >= m - and by
+   C05_transparent the two then accept alike, with the same tree and end offset.  (A third walk
+   over the templates; a cache hit needs no fuel, a miss evaluates the body one level down on both
+   sides.) *)
+Theorem C05_keeps_termination :
+  forall (ustate : Type) (scfg : state_cfg) (tcfg : term_cfg) (fcfg : fields_cfg) (rcfg : rule_cfg)
+         (hk : hooks ustate) (g : grammar) (input : bytes),
+    (forall r, In (GRule r) g -> fl_left_recursive (flags_of (r_directives r)) = false) ->
+    (forall f v u u', fst (h_check hk f v u) = fst (h_check hk f v u')) ->
+    (forall f bs u u', fst (h_extern hk f bs u) = fst (h_extern hk f bs u')) ->
+    forall n m rule_name u u', m <= n ->
+      fst (m_parse ustate scfg tcfg fcfg rcfg hk (strip g) m rule_name input u') <> MFuel ->
+      fst (m_parse ustate scfg tcfg fcfg rcfg hk g n rule_name input u) <> MFuel.
+Proof.
+  intros ustate scfg tcfg fcfg rcfg hk g input H1 H2 H3 n m rule_name u u'.
+  exact (memoize_keeps_termination ustate scfg tcfg fcfg rcfg hk g input H1 H2 H3 n m rule_name u u').
+Qed.
+Print Assumptions C05_keeps_termination.
